@@ -276,9 +276,10 @@ func (ap *AP) S(size int, slices ...Slice) (newAP AP, ndStart, ndEnd int, err er
 			newStrides[i] = stride
 		}
 
-		// a lazily transposed pattern does not have the default strides of its shape:
-		// slicing any of its axes leaves gaps
-		if (sl != nil && (!ap.IsVector() && (i != outerDim || ap.o.IsTransposed()))) || step > 1 {
+		// a lazily transposed pattern does not have the default strides of its shape, and the
+		// view does not carry the pending transpose: it is walked by its strides whether or
+		// not an axis is actually cut
+		if (!ap.IsVector() && (ap.o.IsTransposed() || (sl != nil && i != outerDim))) || step > 1 {
 			order = MakeDataOrder(order, NonContiguous)
 		}
 	}
